@@ -9,8 +9,10 @@ ZERO_CODES = ["bAAA", "bAAC", "bAAE", "bAAG"]
 SIGNED = {"bAAC", "bAAG"}
 
 
-def keep_and_vids():
-    """Two non-transferable signers ('B': verkey is in the vid) and one 'D' signer looked up in .keep."""
+def keep_and_vids(mode="full"):
+    """Two non-transferable signers ('B': verkey is in the vid) and one transferable 'D' signer whose current
+    verkey is looked up in .keep.  mode: "full" = keep maps the D vid to the key embedded in it;
+    "rotated" = keep maps the D vid to a DIFFERENT (rotated) key pair; "nokeep" = the D vid is not in keep."""
     import pysodium
     from hio.core.memo.memoing import Memoer, Keyage
     keep, vids = {}, []
@@ -18,8 +20,13 @@ def keep_and_vids():
         seed = hashlib.sha256(b"hio-verif-signer-%d" % i).digest()
         verkey, sigkey = pysodium.crypto_sign_seed_keypair(seed)
         vid = Memoer._encodeVID(raw=verkey, code=code)
-        keep[vid] = Keyage(qvk=Memoer._encodeQVK(raw=verkey), qss=Memoer._encodeQSS(raw=seed))
         vids.append(vid)
+        if code == "D" and mode == "nokeep":
+            continue
+        if code == "D" and mode == "rotated":
+            seed = hashlib.sha256(b"hio-verif-signer-rotated").digest()
+            verkey, sigkey = pysodium.crypto_sign_seed_keypair(seed)
+        keep[vid] = Keyage(qvk=Memoer._encodeQVK(raw=verkey), qss=Memoer._encodeQSS(raw=seed))
     return keep, vids
 
 
@@ -41,13 +48,17 @@ def memoer_class():
             self.mids = []
 
         def verify(self, vid, sig, ser):
-            key = [_b(vid).hex(), _b(sig).hex(), _b(ser).hex()]
+            # the key text the signature has to be checked against: the vid itself when non-transferable
+            # ('B'), else the qvk currently in .keep ("" when there is none)
+            v = _b(vid).decode("latin1")
+            kt = v if v[:1] == "B" else (self.keep[v].qvk if v in self.keep else "")
+            key = [kt.encode("latin1").hex(), _b(sig).hex(), _b(ser).hex()]
             try:
                 r = super().verify(vid, sig, ser)
             except Exception as ex:
-                self.vlog.append(key + [exn_kind(ex)])
+                self.vlog.append(key + [exn_kind(ex), _b(vid).hex()])
                 raise
-            self.vlog.append(key + ["ok" if r is True else "OtherErr"])
+            self.vlog.append(key + ["ok" if r is True else "OtherErr", _b(vid).hex()])
             return r
 
         def makeMID(self, code="0A"):
@@ -60,19 +71,19 @@ def _b(x):
     return x.encode() if isinstance(x, str) else bytes(x)
 
 
-def rend(memo, code="bAAA", curt=False, size=None, vid=None, mid=None):
+def rend(memo, code="bAAA", curt=False, size=None, vid=None, mid=None, keepmode="full"):
     """Grams of the real Memoer.rend (list of bytes); raises what rend raises."""
-    keep, _ = keep_and_vids()
+    keep, _ = keep_and_vids(keepmode)
     m = memoer_class()(code=code, curt=curt, size=size, keep=keep, vid=vid)
     if mid is not None:
         m.mids = [mid]
     return [bytes(g) for g in m.rend(memo, vid)], m.size
 
 
-def new_receiver(authic):
+def new_receiver(authic, keepmode="full"):
     import logging
     logging.disable(logging.CRITICAL)
-    keep, _ = keep_and_vids()
+    keep, _ = keep_and_vids(keepmode)
     m = memoer_class()(authic=authic, keep=keep)
     m.opened = True
     m._echoic = True
@@ -123,10 +134,12 @@ def observe_rx(m):
     memo = lambda t: [t[0].encode().hex(), src_index(t[1]), None if t[2] is None else t[2].encode().hex()]
     seen, vlog = set(), []
     for e in m.vlog:
-        if tuple(e[:3]) not in seen:
-            seen.add(tuple(e[:3])); vlog.append(e)
+        k = tuple(e[:3]) + (e[4],)
+        if k not in seen:
+            seen.add(k); vlog.append(e)
     return {"rxgs": rxgs, "rxms": [memo(t) for t in m.rxms], "inbox": [memo(t) for t in m.inbox],
-            "queue": len(m.echos), "verify": vlog}
+            "queue": len(m.echos), "verify": vlog,
+            "keep": sorted([v.encode().hex(), k.qvk.encode().hex()] for v, k in m.keep.items())}
 
 
 # ---------------------------------------------------------------- Gallina (Model/MemoRx.v)
@@ -148,16 +161,17 @@ def coq_memo(t):
 
 def coq_rx_case(authic, ops, obs, excs):
     vt = [f"({hexb(v)}, {hexb(s)}, {hexb(m)}, {'Ok tt' if r == 'ok' else '(@Exc unit ' + r + ')'})"
-          for v, s, m, r in obs["verify"]]
+          for v, s, m, r, _vid in obs["verify"]]
     ents = []
     for mid, grams, cnt, vid, src in obs["rxgs"]:
         gl = coq_list([f"({coq_N(gn)}, {hexb(b)})" for gn, b in grams], "N * bytes")
         ents.append("{| MemoRx.o_mid := %s; MemoRx.o_grams := %s; MemoRx.o_count := %s; MemoRx.o_vid := %s; "
                     "MemoRx.o_src := %s |}" % (hexb(mid), gl, coq_option(cnt, coq_N, "N"),
                                               coq_option(vid, hexb, "bytes"), coq_N(src)))
-    return ("{| MemoRx.c_authic := %s; MemoRx.c_ops := %s; MemoRx.c_verify := %s; MemoRx.c_excs := %s; "
+    keep = [f"({hexb(v)}, {hexb(q)})" for v, q in obs["keep"]]
+    return ("{| MemoRx.c_authic := %s; MemoRx.c_keep := %s; MemoRx.c_ops := %s; MemoRx.c_verify := %s; MemoRx.c_excs := %s; "
             "MemoRx.c_rxgs := %s; MemoRx.c_rxms := %s; MemoRx.c_inbox := %s; MemoRx.c_queue := %s |}" % (
-                coq_bool(authic),
+                coq_bool(authic), coq_list(keep, "bytes * bytes"),
                 coq_list([coq_rx_op(o) for o in ops], "MemoRx.op"),
                 coq_list(vt, "bytes * bytes * bytes * res unit"),
                 coq_list([coq_option(e, ty="exn") for e in excs], "option exn"),
